@@ -73,6 +73,28 @@ func Attribute(tr *Trace, v *Violation) []string {
 		for _, a := range v.Also {
 			out = append(out, classProps[a]...)
 		}
+		// C16 ("all IDs usable whenever the type was registered"): if the same trace is clean with every type registered
+		// up front at dense IDs, the failure depends on registration time or ID placement.
+		if tr != nil && tr.Plan != nil && v.World == "primary" && !contains(out, "C16") {
+			switch v.Class {
+			case "value", "compset", "query-set", "query-pos", "batch-diff", "alive-set", "target":
+				moved := false
+				alt := cloneTrace(tr)
+				for i := range alt.Plan.Types {
+					if alt.Plan.Types[i].Late || alt.Plan.Types[i].Fillers > 0 {
+						moved = true
+					}
+					alt.Plan.Types[i].Late = false
+					alt.Plan.Types[i].Fillers = 0
+				}
+				if moved {
+					alt.Steps = dropOps(alt.Steps, "regtype")
+					if v2, _ := RunTrace(alt, false); v2 == nil {
+						out = append(out, "C16")
+					}
+				}
+			}
+		}
 		for _, f := range v.Facts {
 			if strings.HasPrefix(f, "underlying:") {
 				// a mismatch found right after a rejected call keeps the blame of the rejected call's property
@@ -191,6 +213,15 @@ func Attribute(tr *Trace, v *Violation) []string {
 		}
 	}
 	return uniq(out)
+}
+
+func contains(l []string, x string) bool {
+	for _, y := range l {
+		if y == x {
+			return true
+		}
+	}
+	return false
 }
 
 func hasOp(tr *Trace, name string) bool {
